@@ -156,7 +156,7 @@ def run(ctx):
     if res.violated:
         raise tlc.MachineryError('ArgSplit!RoundTrip fails on the transcription itself')
     rep.add_tlc(res, 'P1 ArgSplit!RoundTrip: Split(Join(args)) = args over all bounded argument lists')
-    N = ctx.pick(7, 9)
+    N = ctx.pick(7, 8)
     tab = []
     for n in range(N + 1):
         for t in itertools.product('qcsbo', repeat=n):
@@ -167,15 +167,19 @@ def run(ctx):
             except Exception as e:
                 rep.violation('splitter-exception', 'argument_list_strs(%r) raised %r' % (txt, e), {'kind': 'split', 'text': txt})
                 tab.append({'s': list(t), 'parts': [['?']]})
-    path = os.path.join(tlc.OUT, 'tmp', 'argsplit-%d.json' % os.getpid())
-    json.dump(tab, open(path, 'w'))
-    try:
-        res = tlc.run_tlc('TraceArgSplit.tla', cfg='TraceArgSplit.cfg', env={'TRACE_FILE': path}, workers=16)
-    finally:
-        os.unlink(path)
-    rep.add_tlc(res, 'P4 ArgSplit!Split = argument_list_strs on all %d class strings of length <= %d' % (len(tab), N))
+    diffs = []
+    CH_N = 120000        # one TLC run per chunk: the JSON bridge does not like tables of millions of entries
+    for c0 in range(0, len(tab), CH_N):
+        path = os.path.join(tlc.OUT, 'tmp', 'argsplit-%d-%d.json' % (os.getpid(), c0))
+        json.dump(tab[c0:c0 + CH_N], open(path, 'w'))
+        try:
+            res = tlc.run_tlc('TraceArgSplit.tla', cfg='TraceArgSplit.cfg', env={'TRACE_FILE': path}, workers=16)
+        finally:
+            os.unlink(path)
+        rep.add_tlc(res, 'P4 ArgSplit!Split = argument_list_strs on class strings %d..%d of all %d of length <= %d' % (c0, min(len(tab), c0 + CH_N), len(tab), N))
+        diffs += tlc.printed_tuples(res.stdout, 'DIFF')
     rep.extra['splitter_strings_compared'] = len(tab)
-    for d in tlc.printed_tuples(res.stdout, 'DIFF')[:5]:
+    for d in diffs[:5]:
         txt = ''.join(CH[c] for c in d[1])
         rep.violation('splitter-differs', 'argument_list_strs(%r) = %r, ArgSplit!Split says %r' % (txt, d[2], d[3]), {'kind': 'split', 'text': txt})
     # ---- 2. abstract lines enumerated by TLC, rendered by the printer model, decoded by the tool
